@@ -263,14 +263,39 @@ fn persistence_case(ctx: &mut Ctx, case: u64, rng: &mut Rng, scratch: &Scratch) 
     let file = rng.chance(1, 2);
     let (mut store, path) = new_store(if file { Backend::File } else { Backend::Memory }, scratch);
     let docs = [namespace(1), namespace(2)];
+    // documents start read-only or writable; capabilities are imported again along the way
     for d in &docs {
-        store.import_namespace(Capability::Write(d.clone())).unwrap();
+        let cap = if rng.chance(1, 2) { Capability::Write(d.clone()) } else { Capability::Read(d.id()) };
+        store.import_namespace(cap).unwrap();
     }
     let missing = namespace(5).id();
     let mut model: [DownloadPolicy; 2] = [DownloadPolicy::default(), DownloadPolicy::default()];
     let mut trace = vec![];
     for _ in 0..rng.range(2, 10) {
-        match rng.below(6) {
+        match rng.below(7) {
+            6 => {
+                // another operation on the document that is not about its policy: a capability
+                // import (same, upgrade, or read after write), a peer registration, open and close
+                let d = rng.below(2);
+                match rng.below(3) {
+                    0 => {
+                        let write = rng.chance(2, 3);
+                        let cap = if write { Capability::Write(docs[d].clone()) } else { Capability::Read(docs[d].id()) };
+                        let r = store.import_namespace(cap);
+                        trace.push(format!("import {} capability for doc{d} -> {:?}", if write { "write" } else { "read" }, r.ok()));
+                    }
+                    1 => {
+                        let _ = store.register_useful_peer(docs[d].id(), rng.fill32());
+                        trace.push(format!("register a peer for doc{d}"));
+                    }
+                    _ => {
+                        let _ = store.open_replica(&docs[d].id()).map(|_| ());
+                        store.close_replica(docs[d].id());
+                        trace.push(format!("open and close doc{d}"));
+                    }
+                }
+                ctx.count("other_operations_on_the_document", 1);
+            }
             0 => {
                 ctx.count("set_for_missing_document", 1);
                 if store.set_download_policy(&missing, real(&gen_policy(rng))).is_ok() {
